@@ -61,7 +61,7 @@ def run(ctx):
                'tie order is free')
     ctx.require_events('Fitter.fit:post', 'rows_checked', 'model_fluxes_checked')
     ctx.require_regimes('exact_ties', 'rows_1e30', 'rows_inf', 'rows_nan', 'resolved_excluded', 'single_model', 'models>=200', 'mode:2d', 'mode:3d', 'style:v1', 'style:v2')
-    n_pkg = 16 if ctx.quick else 60
+    n_pkg = 16 if ctx.quick else 240
     n_src = 20 if ctx.quick else 40
     for ip in range(n_pkg):
         d = ctx.newdir('p')
